@@ -7,7 +7,7 @@
     FALSE for an empty or inverted one (definitional: see DD/DDPyVer.v). *)
 From Coq Require Import List Bool NArith.
 From PV Require Import Base.Order Base.CutDef DD.DDModel DD.DDBasics DD.DDAnd DD.DDWf DD.DDWfOps DD.DDCanon DD.DDPyVer DD.DDPyVerProofs
-  Marker.Concrete Marker.Density.
+  Marker.Concrete Marker.Density DD.DDPyVerLocal Marker.PyVerLocal.
 Import ListNotations.
 
 Notation okm := (ok (var:=var) (val:=val) is_range).
@@ -63,6 +63,42 @@ Proof.
   intros ->. reflexivity.
 Qed.
 
+
+(** ** simplify depends only on the marker's behaviour inside the range; the composition laws as identities.
+    [release_only c]: the cut is at a final release (what the crate's release-only normalisation of marker
+    specifiers guarantees for every cut of a reachable diagram; requires-python bounds must satisfy it too here);
+    [nice_pair]: the density side condition of canonicity (Marker/Density.v). *)
+Theorem C12_simplify_local : forall (pfv : N) (w : win) (a b : mdd), wfm a -> wfm b ->
+  (forall c, In c (wcuts w) -> release_only c) -> nice_pair a b ->
+  (forall r : mvaluation, tval is_range val_ok r -> in_win w (rv r (VVersion pfv)) = true -> eval r a = eval r b) ->
+  m_simplify_pv pfv w a = m_simplify_pv pfv w b.
+Proof. exact C12_m_simplify_local. Qed.
+
+Theorem C12_laws_as_identities : forall (pfv : N) (w : win) (t : mdd), wfm t ->
+  (unbounded w = false -> window_empty w = false -> nice_pair t (window_node (VVersion pfv) w)) ->
+  m_simplify_pv pfv w (m_complexify_pv pfv w t) = m_simplify_pv pfv w t /\
+  m_complexify_pv pfv w (m_simplify_pv pfv w t) = m_complexify_pv pfv w t.
+Proof. exact C12_m_laws_src. Qed.
+
+(** outside the range the simplified marker takes a value it takes inside *)
+Theorem C12_outside_is_inside : forall (pfv : N) (w : win) (t : mdd), window_empty w = false -> wfm t ->
+  (forall c, In c (wcuts w ++ all_cuts (VVersion pfv) t) -> release_only c) ->
+  forall r : mvaluation, exists x' : val,
+    in_win w x' = true /\
+    (tval is_range val_ok r -> tval is_range val_ok (upd_r r (VVersion pfv) x')) /\
+    eval r (tsimplify_pv (VVersion pfv) w t) = eval (upd_r r (VVersion pfv) x') (tsimplify_pv (VVersion pfv) w t) /\
+    eval r (tsimplify_pv (VVersion pfv) w t) = eval (upd_r r (VVersion pfv) x') t.
+Proof. exact C12_simplify_outside. Qed.
+
+(** without the release-only proviso the locality claim fails in the model: a cut at the immediate successor of
+    3.8 in the version order (a non-final version, which the crate's normalisation never puts into a diagram) and the
+    range `> 3.8`; the composition laws still hold on it *)
+Theorem C12_local_refuted_off_release_only :
+  m_wfb cex_a = true /\ window_empty cex_w = false /\
+  (forall r : mvaluation, in_win cex_w (rv r PFV) = true -> eval r cex_a = eval r (Leaf false)) /\
+  tsimplify_pv PFV cex_w cex_a <> tsimplify_pv PFV cex_w (Leaf false).
+Proof. destruct C12_local_counterexample as (A & B & C & _ & _ & _ & D & _). auto. Qed.
+
 Example C12_example : (* os_name == 'a' complexified with >= 3.8: the version node goes on top *)
   let t : mdd := RNode (VString 1) (Leaf false) [((inr [97%N], Below), Leaf true); ((inr [97%N], Above), Leaf false)] in
   let w : win := (Some (inl (0%N, ([3%N; 8%N], FINAL)), Below), None) in
@@ -76,3 +112,7 @@ Print Assumptions C12_wf.
 Print Assumptions C12_simplify_complexify.
 Print Assumptions C12_complexify_simplify.
 Print Assumptions C12_empty.
+Print Assumptions C12_simplify_local.
+Print Assumptions C12_laws_as_identities.
+Print Assumptions C12_outside_is_inside.
+Print Assumptions C12_local_refuted_off_release_only.
